@@ -291,6 +291,31 @@ def run(ctx):
         shapes = value_shapes(ctx, P, P.operand(f, t['args'][1]))
         R.ob('C01.5', ('oneshot send', F.enclosing_item(f).npath, 'Err-only'), shapes <= {'Err'},
              'completion writers other than the response path deliver only Err', [f.loc(t)], 'shapes: %s' % sorted(shapes))
+    # ---------------------------------------------------------------- C01.4b table keyed by the full id
+    R.ob('C01.4', ('client table', 'keyed by the 64-bit request id'), table.key_ty == 'u64', 'the in-flight table is keyed by the full request id type (u64), so distinct ids never alias', [], 'key type: ' + table.key_ty)
+    for m in table.methods:
+        for g in table.bodies(m):
+            for bb, t in g.calls():
+                if callee_is(t, 'HashMap::entry', 'HashMap::remove', 'HashMap::remove_entry', 'HashMap::get', 'HashMap::get_mut', 'HashMap::contains_key', 'HashMap::insert'):
+                    if len(t['args']) < 2:
+                        continue
+                    kr = P.root(P.operand(g, t['args'][1], at=bb), through_params='closures')
+                    narrowed = [st for r, p in kr for st in p if st[0] == 't' and str(st[1]).startswith('cast:') and not str(st[1]).endswith(('u64', 'u128'))]
+                    arith = [r for r, p in kr if P.unbound(r)[0] in ('bin', 'un')]
+                    R.ob('C01.4', ('client table', m.npath.split('::')[-1], 'key is the id itself'), not narrowed and not arith,
+                         'the table is looked up with the request id unchanged (no truncation, hashing or arithmetic on it)', [g.loc(t)], str(narrowed or [P.describe(r) for r in arith]))
+
+    # ---------------------------------------------------------------- C01.6 an unmatched response does not disturb other calls
+    from .wake import source_jobs, pending_states, source_ok
+    from .shape_common import run_jobs
+    poll_, reach_, jobs = source_jobs(F, P, ('R',))
+    res = run_jobs(F, jobs)
+    keys = pending_states(res['R'])
+    bad = [k for k in keys if not source_ok('R', k)]
+    R.ob('C01.6', ('dispatch poll', 'reading a response never leaves the read side unarmed'), not bad and len(keys) >= 2,
+         'whether or not a response matched a call, the dispatch goes idle only with the transport read registered: a late, duplicate or unsolicited response cannot stall the responses behind it',
+         [poll.loc(poll.d)], 'offending exit states (last read outcome, w_wait, drain, at_capacity): %s' % bad)
+    R.count('states_explored', res['R']['stats'].get('states', 0))
     R.count('completion_send_sites', len(sends))
     if len(sends) < 4:
         raise CannotDecide('only %d completion send sites found (floor 4)' % len(sends))
